@@ -18,13 +18,14 @@ import (
 // Oracle: a cursor over the sorted slice of live keys.
 
 type c09Family struct {
-	Name     string   `json:"name"`
-	Universe []string `json:"universe"`
-	Segs     int      `json:"segs"`
-	Lower    string   `json:"lower"`  // none | map-full | map-part | store-full | store-part
-	Bounds   []string `json:"bounds"` // "\x01" stands for nil
-	Seeks    []string `json:"seeks"`
-	ProgLen  int      `json:"proglen"`
+	Name       string   `json:"name"`
+	Universe   []string `json:"universe"`
+	Segs       int      `json:"segs"`
+	Lower      string   `json:"lower"`  // none | map-full | map-part | store-full | store-part
+	Bounds     []string `json:"bounds"` // "\x01" stands for nil
+	Seeks      []string `json:"seeks"`
+	ProgLen    int      `json:"proglen"`
+	IndexQuota int      `json:"index_quota,omitempty"` // store-...-indexed: SegmentKeysIndexMaxBytes for the persisted segment
 }
 
 const nilMark = "\x01"
@@ -39,21 +40,27 @@ func c09Families(tier string) []c09Family {
 	if tier == "thorough" {
 		var fs []c09Family
 		for _, lower := range []string{"none", "map-full", "map-part", "store-full", "store-part"} {
-			fs = append(fs, c09Family{"1seg/" + lower, u5, 1, lower, b8, s7, 4})
-			fs = append(fs, c09Family{"2seg/" + lower, u5, 2, lower, b8, s5, 3})
-			fs = append(fs, c09Family{"3seg/" + lower, u3, 3, lower, b8, s5, 3})
+			fs = append(fs, c09Family{"1seg/" + lower, u5, 1, lower, b8, s7, 4, 0})
+			fs = append(fs, c09Family{"2seg/" + lower, u5, 2, lower, b8, s5, 3, 0})
+			fs = append(fs, c09Family{"3seg/" + lower, u3, 3, lower, b8, s5, 3, 0})
+		}
+		for q := 6; q <= 30; q += 2 {
+			fs = append(fs, c09Family{fmt.Sprintf("1seg/store-indexed(q=%d)", q), u3, 1, "store-indexed", []string{nilMark, "", "a", "abc", "abd", "b", "bz", "c", "cd"}, []string{"", "ab", "abd", "b", "bcdefghij", "c", "cc", "d"}, 3, q})
 		}
 		return fs
 	}
 	var fs []c09Family
 	for _, lower := range []string{"none", "map-full", "store-part"} {
-		fs = append(fs, c09Family{"1seg/" + lower, u5, 1, lower, b8, s7, 3})
+		fs = append(fs, c09Family{"1seg/" + lower, u5, 1, lower, b8, s7, 3, 0})
 	}
-	fs = append(fs, c09Family{"2seg/none", u4, 2, "none", b8, s5, 3})
-	fs = append(fs, c09Family{"2seg/map-full", u3, 2, "map-full", b8, s5, 3})
-	fs = append(fs, c09Family{"2seg/store-part", u3, 2, "store-part", b8, s5, 3})
-	fs = append(fs, c09Family{"3seg/none", u3, 3, "none", b8, s5, 2})
-	fs = append(fs, c09Family{"2seg/store-full", u3, 2, "store-full", b8, s5, 2})
+	fs = append(fs, c09Family{"2seg/none", u4, 2, "none", b8, s5, 3, 0})
+	fs = append(fs, c09Family{"2seg/map-full", u3, 2, "map-full", b8, s5, 3, 0})
+	fs = append(fs, c09Family{"2seg/store-part", u3, 2, "store-part", b8, s5, 3, 0})
+	fs = append(fs, c09Family{"3seg/none", u3, 3, "none", b8, s5, 2, 0})
+	fs = append(fs, c09Family{"2seg/store-full", u3, 2, "store-full", b8, s5, 2, 0})
+	for _, q := range []int{10, 14, 20} {
+		fs = append(fs, c09Family{fmt.Sprintf("1seg/store-indexed(q=%d)", q), u3, 1, "store-indexed", []string{nilMark, "", "a", "abc", "abd", "b", "bz", "c", "cd"}, []string{"", "ab", "abd", "b", "bcdefghij", "c", "cc", "d"}, 2, q})
+	}
 	return fs
 }
 
@@ -100,6 +107,11 @@ func lowerContent(f *c09Family) map[string]string {
 			m[k] = "L" + k
 		}
 		m["abd"] = "Labd" // a key that is never in the upper segments
+	case strings.HasSuffix(f.Lower, "-indexed"):
+		// uneven key lengths: with a small index quota the key index of the persisted segment is truncated
+		for _, k := range []string{"", "a", "ab", "abc", "abd", "b", "bcdefghij", "c", "cc"} {
+			m[k] = "L" + k
+		}
 	case strings.HasSuffix(f.Lower, "-part"):
 		m["a"] = "La"
 		m["abc"] = "Labc"
@@ -118,6 +130,9 @@ func c09Build(f *c09Family, shape int) (w *World, ss moss.Snapshot, live [][2]st
 		cfg.Backing = "map"
 	case strings.HasPrefix(f.Lower, "store"):
 		cfg.Backing = "store"
+	}
+	if strings.HasSuffix(f.Lower, "-indexed") {
+		cfg.KeysIndexMax, cfg.KeysIndexMin = f.IndexQuota, 1
 	}
 	if cfg.Backing == "store" {
 		b := &BatchSpec{}
